@@ -32,6 +32,23 @@ def gen_repo_tree(rng, root):
         if p not in used:
             used.add(p)
             nodes.append({"path": p, "kind": "file", "size": 1})
+    # symbolic links: an entry is judged by its own name and place, not by what it points to
+    files = [n["path"] for n in nodes if n["kind"] == "file"]
+    for _ in range(rng.choice([0, 0, 1, 2, 3])):
+        parent = rng.choice(dirs)
+        f = rng.choice(NAMES_F + NAMES_D)
+        p = f if not parent else parent + "/" + f
+        if p in used:
+            continue
+        used.add(p)
+        c = rng.random()
+        if c < 0.45 and files:
+            tgt = os.path.relpath(rng.choice(files), parent or ".")
+        elif c < 0.8 and len(dirs) > 1:
+            tgt = os.path.relpath(rng.choice(dirs[1:]), parent or ".")
+        else:
+            tgt = "no-such-target"
+        nodes.append({"path": p, "kind": "symlink", "target": tgt})
     tree.materialise(root, nodes)
     return dirs
 
@@ -175,29 +192,75 @@ def libgit2_drops(lines):
     return kept
 
 
-def git_quirk_ignored(repo, home, rels):
-    """The ignored set under the libgit2 defect model: ignore files are rewritten in place the way libgit2 reads them,
-    the real git is asked again, the files are restored. None when the model changes nothing."""
-    saved = {}
+SIG_NEG = "git_negation_without_positive_rule_in_same_file_dropped"
+SIG_LINK = "git_dir_only_pattern_matches_link_to_directory"
+
+
+def git_models(repo, home, rels):
+    """Ignored sets under the libgit2 defect models: {(): what the real git says, (SIG,...): what git says after the
+    repository was rewritten the way libgit2 sees it}. Only models that change something in this repository appear.
+      SIG_NEG  - ignore files rewritten without the negations libgit2 drops (libgit2_drops)
+      SIG_LINK - libgit2 decides "is a directory" with stat(), i.e. through links: every link to a directory is
+                 replaced by an empty real directory, so directory-only patterns (`build/`) apply to it
+    Everything is restored afterwards."""
+    def ask():
+        ign = git_ignored_set(repo, home, rels)
+        return set(r for r in rels if r in ign or any(p in ign for p in prefixes(r)[:-1]))
+
+    out = {(): ask()}
+    neg_files = {}
     for dp, _dn, fn in os.walk(repo):
         if ".gitignore" in fn and ".git" not in dp.split(os.sep):
             fp = os.path.join(dp, ".gitignore")
             with open(fp) as f:
                 orig = f.read()
-            kept = libgit2_drops(orig.split("\n"))
-            if "\n".join(kept) != orig:
-                saved[fp] = orig
+            kept = "\n".join(libgit2_drops(orig.split("\n")))
+            if kept != orig:
+                neg_files[fp] = (orig, kept)
+    links = {}
+    for r in rels:
+        ap = os.path.join(repo, r)
+        if os.path.islink(ap) and os.path.isdir(ap):
+            links[ap] = os.readlink(ap)
+
+    def apply(models, on):
+        if SIG_NEG in models:
+            for fp, (orig, kept) in neg_files.items():
                 with open(fp, "w") as f:
-                    f.write("\n".join(kept))
-    if not saved:
-        return None
-    try:
-        ign_q = git_ignored_set(repo, home, rels)
-        return set(r for r in rels if r in ign_q or any(p in ign_q for p in prefixes(r)[:-1]))
-    finally:
-        for fp, orig in saved.items():
-            with open(fp, "w") as f:
-                f.write(orig)
+                    f.write(kept if on else orig)
+        if SIG_LINK in models:
+            for ap, tgt in links.items():
+                if on:
+                    os.unlink(ap)
+                    os.mkdir(ap)
+                else:
+                    os.rmdir(ap)
+                    os.symlink(tgt, ap)
+
+    combos = []
+    if neg_files:
+        combos.append((SIG_NEG,))
+    if links:
+        combos.append((SIG_LINK,))
+    if neg_files and links:
+        combos.append((SIG_LINK, SIG_NEG))
+    for models in combos:
+        apply(models, True)
+        try:
+            pred = ask()
+        finally:
+            apply(models, False)
+        if pred != out[()]:
+            out[models] = pred
+    return out
+
+
+def classify(got_ignored, models):
+    """Which defect models explain the observed ignored set exactly: () = none needed (correct), None = no model does."""
+    for key in sorted(models, key=len):
+        if models[key] == got_ignored:
+            return key
+    return None
 
 
 def hg_lines(rng, dirs):
@@ -222,7 +285,7 @@ def job_container(res, rng, sc, w):
     top = os.path.join(w, "work")
     os.mkdir(top)
     want_all, ignored_all = [], set()
-    want_quirk, any_quirk = [], False
+    scopes = {}
     ignfiles = {}
     for name in ("repoA", "repoB", "plain"):
         d = os.path.join(top, name)
@@ -236,13 +299,10 @@ def job_container(res, rng, sc, w):
         snap = tree.snapshot(d)
         rels = [e.rel for e in snap if not (e.rel == ".git" or e.rel.startswith(".git/"))]
         if name != "plain":
-            ign = git_ignored_set(d, home, rels)
-            ign = set(r for r in rels if r in ign or any(p in ign for p in prefixes(r)[:-1]))
-            ign_q = git_quirk_ignored(d, home, rels)
+            scopes[name] = (rels, git_models(d, home, rels))
+            ign = scopes[name][1][()]
         else:
-            ign, ign_q = set(), None
-        want_quirk += [name + "/" + r for r in rels if r not in (ign if ign_q is None else ign_q)]
-        any_quirk = any_quirk or ign_q is not None
+            ign = set()
         ignfiles = dict(ignfiles, **{name: lines}) if name != "plain" else ignfiles
         want_all += [name + "/" + r for r in rels if r not in ign]
         ignored_all |= set(name + "/" + r for r in ign)
@@ -262,9 +322,17 @@ def job_container(res, rng, sc, w):
             if got != want:
                 ctx["wrongly_listed"] = sorted(got - want)[:8]
                 ctx["wrongly_omitted"] = sorted(want - got)[:8]
-                sig = None
-                if any_quirk and got == set(want_quirk) | {"repoA", "repoB", "plain"}:
-                    sig = "git_negation_without_positive_rule_in_same_file_dropped"
+                # known only if, repository by repository, the listed entries are exactly what a defect model predicts
+                outside = lambda xs: set(x for x in xs if x.split("/")[0] not in scopes or "/" not in x)
+                used, explained = set(), outside(got) == outside(want)
+                for name, (rels, models) in scopes.items():
+                    got_ign = set(r for r in rels if name + "/" + r not in got)
+                    key = classify(got_ign, models)
+                    if key is None:
+                        explained = False
+                    else:
+                        used |= set(key)
+                sig = "+".join(sorted(used)) if explained and used else None
                 res.viol("git on (option, root containing two repositories,%s): %d entries wrongly omitted (e.g. %s), %d wrongly listed (e.g. %s)" % (
                     mode or " default", len(want - got), sorted(want - got)[:2], len(got - want), sorted(got - want)[:2]), ctx, sig=sig)
                 continue
@@ -368,7 +436,7 @@ def run_job(job):
                 res.inc("git oracle unavailable: %s" % e)
                 return res
             ignored = set(r for r in rels if r in ign or any(p in ign for p in prefixes(r)[:-1]))
-            ignored_quirk = git_quirk_ignored(repo, home, rels)
+            ignored_quirk = git_models(repo, home, rels)
         elif tool == "hg":
             ignored = set(r for r in rels if hg_ignored(lines, r))
         else:
@@ -444,8 +512,11 @@ def run_job(job):
                 ctx["wrongly_omitted"] = wrongly_omitted[:8]
                 ctx["wrongly_listed"] = wrongly_listed[:8]
                 sig = None
-                if tool == "git" and active and ignored_quirk is not None and got == set(x for x in universe if x not in ignored_quirk):
-                    sig = "git_negation_without_positive_rule_in_same_file_dropped"
+                if tool == "git" and active and ignored_quirk is not None and not (got - set(universe)):
+                    unis = set(universe)
+                    key = classify(set(x for x in universe if x not in got), {k: v & unis for k, v in ignored_quirk.items()})
+                    if key:
+                        sig = "+".join(sorted(key))
                 res.viol("%s %s (%s, root %s): %d entries wrongly omitted (e.g. %s), %d wrongly listed (e.g. %s); ignore file: %s" % (
                     tool, "on" if active else "off", mode, spelling, len(wrongly_omitted), wrongly_omitted[:2], len(wrongly_listed),
                     wrongly_listed[:2], [l for l in lines if l][:6]), ctx, sig=sig)
